@@ -57,6 +57,9 @@ claimed = {
  "C15": ("Go layout table vs the same table extracted from the C sources (clang AST / preprocessor, parsed only)", "DESIGN §3.4, §4 C15",
    "About twenty constants and layouts (block types, sizes, header layout, footer order on the writing and the parsing side, object-id bits, hash ids, restart cap, default block size, stack file naming) agree entry by entry between c/ and the Go package; the Go list reader tolerates the C list layout.",
    "behavioural equivalence of the implementations is not decided; narrow claim"),
+ "C18": ("panic reachability vs allow-table, nil contracts, bounds obligations in a linear-inequality domain over simulated paths", "DESIGN §3.6, §4 C18, Appendix B",
+   "No input-controlled explicit panic is reachable from the read API; nilable results are checked before use; all ~300 index/slice/allocation obligations of the 22 decoder and opener functions are discharged on every path from linear facts (loop invariants checked inductively, value-changing conversions opaque); inflated data is read through a limit.",
+   "termination on hostile inputs is NOT decided; obligations outside the decoder set are not generated; preconditions and field invariants listed in the evidence are assumed"),
 }
 not_applicable_reason = {
  "C17": "quantifies over numeric size vectors and workload sizes (size classes, cumulative byte sums, 2*log2 N depth, N*log2 N cost); no clause is decidable from the shape of the code, and evaluating the chooser on enumerated vectors would be a runtime test (DESIGN §4 C17)",
